@@ -1,1 +1,1827 @@
-pub fn run(_ctx: &vcommon::Ctx) -> ! { todo!() }
+//! C27: parsing any text as policy document / policy source / expression, and compiling any policy the parser
+//! produced, returns a value or a structured error and never panics.
+use std::{
+    path::{Path, PathBuf},
+    sync::OnceLock,
+};
+
+use aranya_policy_ast::Version;
+use aranya_policy_compiler::Compiler;
+use aranya_policy_lang::lang::{parse_expression, parse_policy_document, parse_policy_str};
+use proptest::prelude::*;
+use serde::{Deserialize, Serialize};
+use vcommon::{CaseInfo, CheckResult, Ctx, Failure, Report, idx};
+
+use crate::policies;
+
+#[derive(Clone, Debug, Serialize, Deserialize)]
+struct Case {
+    /// which generator produced the text (label only)
+    kind: String,
+    text: String,
+}
+
+// ---- vocabulary (literal tokens of policy.pest) -----------------------------------------------------------
+
+const KEYWORDS: &[&str] = &[
+    "unit", "string", "bytes", "int", "bool", "id", "optional", "option", "struct", "enum", "result", "dynamic", "true",
+    "false", "Unit", "None", "Some", "Ok", "Err", "query", "exists", "count_up_to", "at_least", "at_most", "exactly",
+    "match", "if", "else", "todo()", "test_fail(", "return", "this", "substruct", "as", "is", "or", "action", "publish",
+    "let", "check", "finish", "map", "create", "update", "to", "delete", "emit", "recall", "debug_assert(", "attributes",
+    "fields", "policy", "seal", "open", "ephemeral", "immutable", "use", "fact", "effect", "command", "function",
+    "envelope", "add", "sub", "saturating_add", "saturating_sub",
+];
+
+const PUNCT: &[&str] = &[
+    "{", "}", "(", ")", "[", "]", ",", ":", "::", "=>", "=", "==", "!=", ">=", "<=", ">", "<", "&&", "||", "!", "+", "-",
+    ".", "...", "?", "|", "_", "//", "/*", "*/", "\"", "\\", "---", "```", "```policy", "~~~",
+];
+
+const IDENTS: &[&str] = &["a", "b", "c", "x", "y", "n", "Foo", "Bar", "F", "G", "Mode", "On", "Off", "f", "g", "r", "E", "C"];
+
+// ---- corpus ---------------------------------------------------------------------------------------------------
+
+fn collect(dir: &Path, exts: &[&str], out: &mut Vec<PathBuf>, depth: usize) {
+    if depth > 6 {
+        return;
+    }
+    let Ok(rd) = std::fs::read_dir(dir) else { return };
+    let mut entries: Vec<PathBuf> = rd.filter_map(|e| e.ok().map(|e| e.path())).collect();
+    entries.sort();
+    for p in entries {
+        if p.is_dir() {
+            collect(&p, exts, out, depth + 1);
+        } else if p.extension().and_then(|e| e.to_str()).is_some_and(|e| exts.contains(&e)) {
+            out.push(p);
+        }
+    }
+}
+
+struct Corpus {
+    /// bare policy source
+    sources: Vec<String>,
+    /// markdown documents
+    docs: Vec<String>,
+    from_repo: usize,
+}
+
+static CORPUS: OnceLock<Corpus> = OnceLock::new();
+
+fn corpus() -> &'static Corpus {
+    CORPUS.get_or_init(|| {
+        let mut sources: Vec<String> = Vec::new();
+        for s in policies::RICH.iter().chain(policies::VALID.iter()) {
+            sources.push((*s).to_string());
+        }
+        for (_, s) in policies::INVALID_VALIDATION.iter().chain(policies::INVALID_COMPILE).chain(policies::INVALID_PARSE) {
+            sources.push((*s).to_string());
+        }
+        let mut docs: Vec<String> = sources.iter().take(6).map(|s| policies::to_doc(s)).collect();
+        let repo = PathBuf::from(std::env::var("VERIF_REPO").unwrap_or_else(|_| "/repo".into()));
+        let mut files = Vec::new();
+        collect(&repo.join("crates/aranya-policy-compiler/tests/data"), &["policy"], &mut files, 0);
+        collect(&repo.join("crates/aranya-policy-lang/tests/data"), &["policy", "md"], &mut files, 0);
+        collect(&repo.join("crates/aranya-policy-ifgen/tests/data"), &["md"], &mut files, 0);
+        for extra in ["crates/aranya-policy-lang/test-policy.md", "crates/aranya-core-example/src/policy.md"] {
+            files.push(repo.join(extra));
+        }
+        let mut from_repo = 0;
+        for f in files {
+            if let Ok(s) = std::fs::read_to_string(&f) {
+                if s.len() > 20_000 {
+                    continue;
+                }
+                from_repo += 1;
+                if f.extension().is_some_and(|e| e == "md") {
+                    docs.push(s);
+                } else {
+                    sources.push(s);
+                }
+            }
+        }
+        Corpus { sources, docs, from_repo }
+    })
+}
+
+// ---- generators ---------------------------------------------------------------------------------------------------
+
+struct Cur<'a> {
+    d: &'a [u8],
+    i: usize,
+}
+
+impl Cur<'_> {
+    fn u8(&mut self) -> u8 {
+        let v = self.d.get(self.i).copied().unwrap_or(0);
+        self.i += 1;
+        v
+    }
+    fn below(&mut self, n: usize) -> usize {
+        (self.u8() as usize) % n.max(1)
+    }
+    fn chance(&mut self, num: u8, den: u8) -> bool {
+        if self.exhausted() {
+            return false;
+        }
+        self.u8() % den < num
+    }
+    fn exhausted(&self) -> bool {
+        self.i >= self.d.len()
+    }
+}
+
+/// Samples the grammar of policy.pest (mostly well-formed text; names from a small pool so that references hit
+/// definitions now and then; types and scopes are random, so most results are ill-typed or ill-scoped).
+struct G<'a> {
+    c: Cur<'a>,
+    o: String,
+}
+
+const MAX_DEPTH: usize = 7;
+
+impl G<'_> {
+    fn w(&mut self, s: &str) {
+        self.o.push_str(s);
+    }
+    fn ident(&mut self) {
+        let k = self.c.below(200);
+        if k < 188 {
+            self.w(IDENTS[k % IDENTS.len()]);
+        } else if k < 199 {
+            let n = self.c.u8();
+            self.w(&format!("v{n}"));
+        } else if self.c.u8() >= 24 {
+            self.w("a");
+        } else {
+            // keyword used as a name
+            let k = self.c.below(KEYWORDS.len());
+            self.w(KEYWORDS[k].trim_end_matches(['(', ')']));
+        }
+    }
+    fn vtype(&mut self, d: usize) {
+        let n = if d >= 4 { 6 } else { 11 };
+        match self.c.below(n) {
+            0 => self.w("int"),
+            1 => self.w("string"),
+            2 => self.w("bool"),
+            3 => self.w("id"),
+            4 => self.w("bytes"),
+            5 => self.w("unit"),
+            6 => {
+                self.w("struct ");
+                self.ident();
+            }
+            7 => {
+                self.w("enum ");
+                self.ident();
+            }
+            8 => {
+                self.w("option[");
+                self.vtype(d + 1);
+                self.w("]");
+            }
+            9 if d > 0 && !self.c.chance(1, 10) => self.w("int"),
+            9 => {
+                self.w("optional ");
+                if self.c.chance(1, 8) {
+                    self.vtype(d + 1);
+                } else {
+                    self.vtype(4);
+                }
+            }
+            _ => {
+                self.w("result[");
+                self.vtype(d + 1);
+                self.w(", ");
+                self.vtype(d + 1);
+                self.w("]");
+            }
+        }
+    }
+    fn fields(&mut self, insertion: bool, dynamic: bool) {
+        let n = self.c.below(4);
+        for i in 0..n {
+            if i > 0 {
+                self.w(", ");
+            }
+            if insertion && self.c.chance(1, 6) {
+                self.w("+");
+                self.ident();
+            } else {
+                self.ident();
+                self.w(" ");
+                self.vtype(0);
+                if dynamic && self.c.chance(1, 4) {
+                    self.w(" dynamic");
+                }
+            }
+        }
+        if n > 0 && self.c.chance(1, 3) {
+            self.w(",");
+        }
+    }
+    fn int(&mut self) {
+        match self.c.below(40) {
+            36 => self.w("9223372036854775808"),
+            37 => self.w("9223372036854775807"),
+            38 => self.w("-9223372036854775808"),
+            39 => self.w("-9223372036854775809"),
+            0..=12 => self.w("0"),
+            13..=20 => self.w("1"),
+            21..=24 => self.w("-1"),
+            _ => {
+                let n = self.c.u8();
+                self.w(&n.to_string());
+            }
+        }
+    }
+    fn string(&mut self) {
+        const GOOD: &[&str] = &["\"\"", "\"x\"", "\"a b\"", "\"\\n\"", "\"\\x41\"", "\"\u{e9}\"", "\"\\\"\"", "\"\\\\\""];
+        const BAD: &[&str] = &["\"\\xzz\"", "\"\\q\"", "\"\\x00\"", "\"\\xff\"", "\"\\x4\""];
+        if self.c.chance(1, 25) {
+            let k = self.c.below(BAD.len());
+            self.w(BAD[k]);
+        } else {
+            let k = self.c.below(GOOD.len());
+            self.w(GOOD[k]);
+        }
+    }
+    fn fact_literal(&mut self, d: usize) {
+        self.ident();
+        self.w("[");
+        let n = self.c.below(3);
+        for i in 0..n {
+            if i > 0 {
+                self.w(", ");
+            }
+            self.ident();
+            self.w(": ");
+            if self.c.chance(1, 3) {
+                self.w("?");
+            } else {
+                self.expr(d + 1);
+            }
+        }
+        self.w("]");
+        if self.c.chance(2, 3) {
+            self.w("=>{");
+            let n = self.c.below(3);
+            for i in 0..n {
+                if i > 0 {
+                    self.w(", ");
+                }
+                self.ident();
+                self.w(": ");
+                if self.c.chance(1, 2) {
+                    self.w("?");
+                } else {
+                    self.expr(d + 1);
+                }
+            }
+            self.w("}");
+        }
+    }
+    fn args(&mut self, d: usize) {
+        self.w("(");
+        let n = self.c.below(3);
+        for i in 0..n {
+            if i > 0 {
+                self.w(", ");
+            }
+            self.expr(d + 1);
+        }
+        self.w(")");
+    }
+    fn atom(&mut self, d: usize) {
+        let simple = d >= MAX_DEPTH || self.c.exhausted();
+        let k = if simple { self.c.below(8) } else { self.c.below(30) };
+        match k {
+            0 => self.int(),
+            1 => self.string(),
+            2 => self.w("true"),
+            3 => self.w("false"),
+            4 => self.w("None"),
+            5 | 6 => self.ident(),
+            7 => self.w("this"),
+            8 => {
+                self.w("Some(");
+                self.expr(d + 1);
+                self.w(")");
+            }
+            9 => {
+                self.w("Ok(");
+                self.expr(d + 1);
+                self.w(")");
+            }
+            10 => {
+                self.w("Err(");
+                self.expr(d + 1);
+                self.w(")");
+            }
+            11 | 12 => {
+                self.ident();
+                self.w(" { ");
+                let n = self.c.below(3);
+                for i in 0..n {
+                    if i > 0 {
+                        self.w(", ");
+                    }
+                    self.ident();
+                    self.w(": ");
+                    self.expr(d + 1);
+                }
+                if self.c.chance(1, 4) {
+                    if n > 0 {
+                        self.w(", ");
+                    }
+                    self.w("...");
+                    self.ident();
+                }
+                self.w(" }");
+            }
+            13 => self.w("Unit"),
+            14 => {
+                self.w("match ");
+                self.cond(d + 1);
+                self.w(" { ");
+                let n = 1 + self.c.below(3) - usize::from(self.c.chance(1, 10));
+                for _ in 0..n {
+                    if self.c.chance(1, 4) {
+                        self.w("_");
+                    } else {
+                        self.expr(d + 2);
+                        if self.c.chance(1, 4) {
+                            self.w(" | ");
+                            self.expr(d + 2);
+                        }
+                    }
+                    self.w(" => ");
+                    self.expr(d + 1);
+                    self.w(" ");
+                }
+                self.w("}");
+            }
+            15 => {
+                const Q: &[&str] = &["query ", "exists ", "count_up_to 2 ", "at_least 1 ", "at_most 1 ", "exactly 1 ", "count_up_to 0 ", "at_least -1 "];
+                let k = self.c.below(Q.len());
+                self.w(Q[k]);
+                self.fact_literal(d + 1);
+            }
+            16 => {
+                self.w("if ");
+                self.cond(d + 1);
+                self.w(" { :");
+                self.expr(d + 1);
+                self.w(" } else { :");
+                self.expr(d + 1);
+                self.w(" }");
+            }
+            17 => self.w("todo()"),
+            18 => {
+                self.w("test_fail(");
+                if self.c.chance(1, 2) {
+                    self.string();
+                }
+                self.w(")");
+            }
+            19 => {
+                self.w("return ");
+                self.expr(d + 1);
+            }
+            20 => {
+                self.w("recall ");
+                self.ident();
+                self.args(d);
+            }
+            21 | 22 => {
+                self.ident();
+                self.args(d);
+            }
+            23 => {
+                self.ident();
+                self.w("::");
+                self.ident();
+                self.args(d);
+            }
+            24 => {
+                self.ident();
+                self.w("::");
+                self.ident();
+            }
+            25 => {
+                self.w("{ ");
+                let n = self.c.below(3);
+                for _ in 0..n {
+                    self.stmt(d + 1, 0);
+                    self.w("\n");
+                }
+                self.w(": ");
+                self.expr(d + 1);
+                self.w(" }");
+            }
+            26 => {
+                self.w("(");
+                self.expr(d + 1);
+                self.w(")");
+            }
+            27 => {
+                const B: &[&str] = &["add", "sub", "saturating_add", "saturating_sub"];
+                let k = self.c.below(B.len());
+                self.w(B[k]);
+                self.args(d);
+            }
+            _ => self.ident(),
+        }
+    }
+    /// Condition / scrutinee position: `x { ... }` would be read as a struct literal, so these are mostly parenthesized.
+    fn cond(&mut self, d: usize) {
+        if self.c.chance(1, 6) {
+            self.expr(d);
+        } else {
+            self.w("(");
+            self.expr(d);
+            self.w(")");
+        }
+    }
+    fn expr(&mut self, d: usize) {
+        let terms = if d >= MAX_DEPTH { 1 } else { 1 + self.c.below(5) / 3 };
+        for t in 0..terms {
+            if t > 0 {
+                const OPS: &[&str] = &[" > ", " < ", " >= ", " <= ", " == ", " != ", " && ", " || ", " or "];
+                if self.c.chance(1, 120) {
+                    // rejected by the parser with a dedicated error (and a rendered suggestion)
+                    let op = if self.c.chance(1, 2) { " + " } else { " - " };
+                    self.w(op);
+                } else {
+                    let k = self.c.below(OPS.len());
+                    self.w(OPS[k]);
+                }
+            }
+            while self.c.chance(1, 8) {
+                self.w("!");
+            }
+            self.atom(d);
+            while self.c.chance(1, 5) {
+                match self.c.below(5) {
+                    0 | 1 => {
+                        self.w(".");
+                        self.ident();
+                    }
+                    2 => {
+                        self.w(" substruct ");
+                        self.ident();
+                    }
+                    3 => {
+                        self.w(" as ");
+                        self.ident();
+                    }
+                    _ => {
+                        let s = if self.c.chance(1, 2) { " is None" } else { " is Some" };
+                        self.w(s);
+                    }
+                }
+            }
+        }
+    }
+    fn block(&mut self, d: usize, ctx: u8) {
+        self.w("{\n");
+        let n = if d >= MAX_DEPTH { 0 } else { self.c.below(4) };
+        for _ in 0..n {
+            self.stmt(d + 1, ctx);
+            self.w("\n");
+        }
+        self.w("}");
+    }
+    /// ctx: 0 function, 1 action, 2 policy, 3 finish
+    fn stmt(&mut self, d: usize, ctx: u8) {
+        let k = if d >= MAX_DEPTH { self.c.below(4) } else { self.c.below(24) };
+        match k {
+            0 | 1 | 2 => {
+                self.w("let ");
+                self.ident();
+                self.w(" = ");
+                self.expr(d + 1);
+            }
+            3 => {
+                self.w("return ");
+                self.expr(d + 1);
+            }
+            4 | 5 => {
+                self.w("check ");
+                self.expr(d + 1);
+                self.w(" else ");
+                self.expr(d + 1);
+            }
+            6 => {
+                self.w("match ");
+                self.cond(d + 1);
+                self.w(" {\n");
+                let n = 1 + self.c.below(3) - usize::from(self.c.chance(1, 10));
+                for _ in 0..n {
+                    if self.c.chance(1, 4) {
+                        self.w("_");
+                    } else {
+                        self.expr(d + 2);
+                    }
+                    self.w(" => ");
+                    self.block(d + 1, ctx);
+                    self.w("\n");
+                }
+                self.w("}");
+            }
+            7 | 8 => {
+                self.w("if ");
+                self.cond(d + 1);
+                self.w(" ");
+                self.block(d + 1, ctx);
+                if self.c.chance(1, 3) {
+                    self.w(" else if ");
+                    self.cond(d + 1);
+                    self.w(" ");
+                    self.block(d + 1, ctx);
+                }
+                if self.c.chance(1, 2) {
+                    self.w(" else ");
+                    self.block(d + 1, ctx);
+                }
+            }
+            9 | 10 => {
+                self.w("finish ");
+                self.block(d + 1, 3);
+            }
+            11 => {
+                self.w("map ");
+                self.fact_literal(d + 1);
+                self.w(" as ");
+                self.ident();
+                self.w(" ");
+                self.block(d + 1, ctx);
+            }
+            12 => {
+                self.w("create ");
+                self.fact_literal(d + 1);
+            }
+            13 => {
+                self.w("update ");
+                self.fact_literal(d + 1);
+                self.w(" to {");
+                if self.c.chance(2, 3) {
+                    self.ident();
+                    self.w(": ");
+                    self.expr(d + 1);
+                }
+                self.w("}");
+            }
+            14 => {
+                self.w("delete ");
+                self.fact_literal(d + 1);
+            }
+            15 | 16 => {
+                self.w("emit ");
+                self.expr(d + 1);
+            }
+            17 | 18 => {
+                self.w("publish ");
+                self.expr(d + 1);
+            }
+            19 => {
+                self.w("recall ");
+                self.ident();
+                self.args(d);
+            }
+            20 => {
+                self.w("debug_assert(");
+                self.expr(d + 1);
+                self.w(")");
+            }
+            21 => {
+                self.ident();
+                self.args(d);
+            }
+            22 => {
+                self.w("action ");
+                self.ident();
+                self.args(d);
+            }
+            _ => {
+                self.w("let ");
+                self.ident();
+                self.w(" = ");
+                self.atom(d + 1);
+            }
+        }
+    }
+    fn params(&mut self) {
+        self.w("(");
+        self.fields(false, false);
+        self.w(")");
+    }
+    fn top(&mut self) {
+        match self.c.below(14) {
+            0 => {
+                self.w("use ");
+                self.ident();
+            }
+            1 | 2 => {
+                if self.c.chance(1, 4) {
+                    self.w("immutable ");
+                }
+                self.w("fact ");
+                self.ident();
+                self.w("[");
+                self.fields(false, false);
+                self.w("]=>{");
+                self.fields(false, false);
+                self.w("}");
+            }
+            3 | 4 => {
+                if self.c.chance(1, 5) {
+                    self.w("ephemeral ");
+                }
+                self.w("action ");
+                self.ident();
+                self.params();
+                if self.c.chance(1, 4) {
+                    self.w(" result[");
+                    self.vtype(1);
+                    self.w(", ");
+                    self.vtype(1);
+                    self.w("]");
+                }
+                self.w(" ");
+                self.block(0, 1);
+            }
+            5 => {
+                self.w("effect ");
+                self.ident();
+                self.w(" {");
+                self.fields(true, true);
+                self.w("}");
+            }
+            6 => {
+                self.w("struct ");
+                self.ident();
+                self.w(" {");
+                self.fields(true, false);
+                self.w("}");
+            }
+            7 => {
+                self.w("enum ");
+                self.ident();
+                self.w(" { ");
+                let n = 1 + self.c.below(3);
+                for i in 0..n {
+                    if i > 0 {
+                        self.w(", ");
+                    }
+                    self.ident();
+                }
+                self.w(" }");
+            }
+            8 | 9 => {
+                if self.c.chance(1, 5) {
+                    self.w("ephemeral ");
+                }
+                self.w("command ");
+                self.ident();
+                self.w(" {\n");
+                if self.c.chance(1, 4) {
+                    self.w("attributes { ");
+                    self.ident();
+                    self.w(": ");
+                    self.atom(MAX_DEPTH - 1);
+                    self.w(" }\n");
+                }
+                if self.c.chance(4, 5) {
+                    self.w("fields {");
+                    self.fields(true, false);
+                    self.w("}\n");
+                }
+                self.w("seal ");
+                if self.c.chance(2, 3) {
+                    self.w("{ return todo() }");
+                } else {
+                    self.block(1, 0);
+                }
+                self.w("\nopen ");
+                if self.c.chance(2, 3) {
+                    self.w("{ return todo() }");
+                } else {
+                    self.block(1, 0);
+                }
+                self.w("\npolicy ");
+                self.block(0, 2);
+                let n = self.c.below(3) / 2 + usize::from(self.c.chance(1, 3));
+                for _ in 0..n {
+                    self.w("\nrecall ");
+                    self.ident();
+                    self.params();
+                    self.w(" ");
+                    self.block(1, 2);
+                }
+                self.w("\n}");
+            }
+            10 | 11 => {
+                self.w("function ");
+                self.ident();
+                self.params();
+                self.w(" ");
+                self.vtype(0);
+                self.w(" ");
+                self.block(0, 0);
+            }
+            12 => {
+                self.w("finish function ");
+                self.ident();
+                self.params();
+                self.w(" ");
+                self.block(0, 3);
+            }
+            _ => {
+                self.w("let ");
+                self.ident();
+                self.w(" = ");
+                self.expr(2);
+            }
+        }
+        self.w("\n");
+    }
+}
+
+fn grammar_text(data: &[u8], expr_only: bool) -> String {
+    let mut g = G { c: Cur { d: data, i: 0 }, o: String::new() };
+    if expr_only {
+        g.expr(0);
+    } else {
+        let n = 1 + g.c.below(6);
+        for _ in 0..n {
+            g.top();
+        }
+    }
+    g.o
+}
+
+// ---- a scope- and type-aware sampler: output mostly compiles, so the later compiler stages are reached ----------------
+
+#[derive(Clone, PartialEq, Debug)]
+enum Ty {
+    Int,
+    Str,
+    Bool,
+    Struct(usize),
+    Enum(usize),
+    OptInt,
+}
+
+struct T<'a> {
+    c: Cur<'a>,
+    o: String,
+    structs: Vec<(String, Vec<(String, Ty)>)>,
+    enums: Vec<(String, Vec<String>)>,
+    /// name, keys, values
+    facts: Vec<(String, Vec<(String, Ty)>, Vec<(String, Ty)>)>,
+    effects: Vec<(String, Vec<(String, Ty)>)>,
+    cmds: Vec<(String, Vec<(String, Ty)>)>,
+    funcs: Vec<(String, Vec<Ty>, Ty)>,
+    finish_funcs: Vec<(String, Vec<Ty>)>,
+    scopes: Vec<Vec<(String, Ty)>>,
+    n: usize,
+}
+
+impl T<'_> {
+    fn w(&mut self, s: &str) {
+        self.o.push_str(s);
+    }
+    fn fresh(&mut self, p: &str) -> String {
+        self.n += 1;
+        format!("{p}{}", self.n)
+    }
+    /// a deliberate mistake now and then
+    fn slip(&mut self) -> bool {
+        self.c.chance(1, 150)
+    }
+    fn ty(&mut self, simple: bool) -> Ty {
+        let k = self.c.below(if simple { 3 } else { 7 });
+        match k {
+            0 | 3 => Ty::Int,
+            1 => Ty::Str,
+            2 => Ty::Bool,
+            4 if !self.structs.is_empty() => Ty::Struct(self.c.below(self.structs.len())),
+            5 if !self.enums.is_empty() => Ty::Enum(self.c.below(self.enums.len())),
+            6 => Ty::OptInt,
+            _ => Ty::Int,
+        }
+    }
+    fn ty_text(&self, t: &Ty) -> String {
+        match t {
+            Ty::Int => "int".into(),
+            Ty::Str => "string".into(),
+            Ty::Bool => "bool".into(),
+            Ty::Struct(i) => format!("struct {}", self.structs[*i].0),
+            Ty::Enum(i) => format!("enum {}", self.enums[*i].0),
+            Ty::OptInt => "option[int]".into(),
+        }
+    }
+    fn field_list(&mut self, n: usize, simple: bool, prefix: &str) -> Vec<(String, Ty)> {
+        (0..n).map(|k| (format!("{prefix}{k}"), self.ty(simple))).collect()
+    }
+    fn write_fields(&mut self, f: &[(String, Ty)]) {
+        for (k, (n, t)) in f.iter().enumerate() {
+            if k > 0 {
+                self.w(", ");
+            }
+            let tt = self.ty_text(t);
+            self.w(&format!("{n} {tt}"));
+        }
+    }
+    fn locals_of(&self, t: &Ty) -> Vec<String> {
+        self.scopes.iter().flatten().filter(|(_, lt)| lt == t).map(|(n, _)| n.clone()).collect()
+    }
+    fn expr(&mut self, t: &Ty, d: usize) {
+        if self.slip() {
+            // wrong type or unknown name
+            match self.c.below(4) {
+                0 => self.w("nope"),
+                1 => self.w("\"oops\""),
+                2 => self.w("7"),
+                _ => self.w("None"),
+            }
+            return;
+        }
+        let locals = self.locals_of(t);
+        if !locals.is_empty() && (d >= 4 || self.c.chance(2, 5)) {
+            let k = self.c.below(locals.len());
+            self.w(&locals[k]);
+            return;
+        }
+        // a field of a struct-typed local
+        if d < 4 && self.c.chance(1, 5) {
+            let cands: Vec<String> = self
+                .scopes
+                .iter()
+                .flatten()
+                .filter_map(|(n, lt)| match lt {
+                    Ty::Struct(i) => self.structs[*i].1.iter().find(|(_, ft)| ft == t).map(|(f, _)| format!("{n}.{f}")),
+                    _ => None,
+                })
+                .collect();
+            if !cands.is_empty() {
+                let k = self.c.below(cands.len());
+                self.w(&cands[k]);
+                return;
+            }
+        }
+        // a call of a function with that result type
+        if d < 3 && self.c.chance(1, 4) {
+            let cands: Vec<(String, Vec<Ty>)> = self.funcs.iter().filter(|f| f.2 == *t).map(|f| (f.0.clone(), f.1.clone())).collect();
+            if !cands.is_empty() {
+                let (name, params) = cands[self.c.below(cands.len())].clone();
+                self.w(&name);
+                self.w("(");
+                let drop_one = self.slip();
+                for (k, p) in params.iter().enumerate() {
+                    if drop_one && k == 0 {
+                        continue;
+                    }
+                    if k > usize::from(drop_one) {
+                        self.w(", ");
+                    }
+                    self.expr(p, d + 1);
+                }
+                self.w(")");
+                return;
+            }
+        }
+        let deep = d < 4;
+        match t {
+            Ty::Int => match self.c.below(if deep { 9 } else { 2 }) {
+                0 | 1 => {
+                    let n = self.c.u8() % 12;
+                    self.w(&n.to_string());
+                }
+                2 => {
+                    self.w("saturating_add(");
+                    self.expr(&Ty::Int, d + 1);
+                    self.w(", ");
+                    self.expr(&Ty::Int, d + 1);
+                    self.w(")");
+                }
+                3 => {
+                    self.w("(");
+                    self.expr(&Ty::OptInt, d + 1);
+                    self.w(" or 0)");
+                }
+                4 => {
+                    self.w("if ");
+                    self.expr(&Ty::Bool, d + 1);
+                    self.w(" { :");
+                    self.expr(&Ty::Int, d + 1);
+                    self.w(" } else { :");
+                    self.expr(&Ty::Int, d + 1);
+                    self.w(" }");
+                }
+                5 => {
+                    self.w("match ");
+                    self.expr(&Ty::Bool, d + 1);
+                    self.w(" { true => ");
+                    self.expr(&Ty::Int, d + 1);
+                    self.w(" false => ");
+                    self.expr(&Ty::Int, d + 1);
+                    self.w(" }");
+                }
+                6 if !self.facts.is_empty() => {
+                    self.w("count_up_to 3 ");
+                    self.fact_lit(true, d + 1);
+                }
+                7 => {
+                    self.w("{ let q");
+                    let q = self.fresh("");
+                    self.w(&q);
+                    self.w(" = ");
+                    self.expr(&Ty::Int, d + 1);
+                    self.w(" : q");
+                    self.w(&q);
+                    self.w(" }");
+                }
+                _ => self.w("1"),
+            },
+            Ty::Str => {
+                const S: &[&str] = &["\"\"", "\"x\"", "\"hello\"", "\"a\\n\""];
+                let k = self.c.below(S.len());
+                self.w(S[k]);
+            }
+            Ty::Bool => match self.c.below(if deep { 9 } else { 2 }) {
+                0 => self.w("true"),
+                1 => self.w("false"),
+                2 => {
+                    self.expr(&Ty::Int, d + 1);
+                    const C: &[&str] = &[" > ", " < ", " >= ", " <= ", " == ", " != "];
+                    let k = self.c.below(C.len());
+                    self.w(C[k]);
+                    self.expr(&Ty::Int, d + 1);
+                }
+                3 => {
+                    self.w("!");
+                    self.w("(");
+                    self.expr(&Ty::Bool, d + 1);
+                    self.w(")");
+                }
+                4 => {
+                    self.w("(");
+                    self.expr(&Ty::Bool, d + 1);
+                    let pick = if self.c.u8() & 1 == 0 { " && " } else { " || " };
+                    self.w(pick);
+                    self.expr(&Ty::Bool, d + 1);
+                    self.w(")");
+                }
+                5 if !self.facts.is_empty() => {
+                    const Q: &[&str] = &["exists ", "at_least 1 ", "at_most 2 ", "exactly 1 "];
+                    let k = self.c.below(Q.len());
+                    self.w(Q[k]);
+                    self.fact_lit(true, d + 1);
+                }
+                6 => {
+                    self.expr(&Ty::OptInt, d + 1);
+                    let pick = if self.c.u8() & 1 == 0 { " is Some" } else { " is None" };
+                    self.w(pick);
+                }
+                7 => {
+                    self.expr(&Ty::Str, d + 1);
+                    self.w(" == ");
+                    self.expr(&Ty::Str, d + 1);
+                }
+                _ => self.w("true"),
+            },
+            Ty::Struct(i) => {
+                let (name, fields) = self.structs[*i].clone();
+                self.w(&name);
+                self.w(" { ");
+                let skip = self.slip();
+                for (k, (f, ft)) in fields.iter().enumerate() {
+                    if skip && k == 0 {
+                        continue;
+                    }
+                    self.w(f);
+                    self.w(": ");
+                    self.expr(ft, d + 1);
+                    self.w(", ");
+                }
+                self.w("}");
+            }
+            Ty::Enum(i) => {
+                let (name, vars) = self.enums[*i].clone();
+                let k = self.c.below(vars.len());
+                self.w(&format!("{name}::{}", vars[k]));
+            }
+            Ty::OptInt => match self.c.below(4) {
+                0 => self.w("None"),
+                1 => {
+                    self.w("Some(");
+                    self.expr(&Ty::Int, d + 1);
+                    self.w(")");
+                }
+                _ => {
+                    let pick = if self.c.u8() & 1 == 0 { "add(" } else { "sub(" };
+                    self.w(pick);
+                    self.expr(&Ty::Int, d + 1);
+                    self.w(", ");
+                    self.expr(&Ty::Int, d + 1);
+                    self.w(")");
+                }
+            },
+        }
+    }
+    /// `query`: binds allowed
+    fn fact_lit(&mut self, query: bool, d: usize) {
+        let k = self.c.below(self.facts.len());
+        let (name, keys, vals) = self.facts[k].clone();
+        self.w(&name);
+        self.w("[");
+        let mut bound = false;
+        for (i, (kn, kt)) in keys.iter().enumerate() {
+            if i > 0 {
+                self.w(", ");
+            }
+            self.w(kn);
+            self.w(": ");
+            if query && (bound || self.c.chance(1, 3)) {
+                bound = true;
+                self.w("?");
+            } else {
+                self.expr(kt, d + 1);
+            }
+        }
+        self.w("]");
+        if !query || self.c.chance(1, 2) {
+            self.w("=>{");
+            for (i, (vn, vt)) in vals.iter().enumerate() {
+                if i > 0 {
+                    self.w(", ");
+                }
+                self.w(vn);
+                self.w(": ");
+                if query {
+                    self.w("?");
+                } else {
+                    self.expr(vt, d + 1);
+                }
+            }
+            self.w("}");
+        }
+    }
+    fn named_lit(&mut self, name: &str, fields: &[(String, Ty)], d: usize) {
+        self.w(name);
+        self.w(" { ");
+        for (f, ft) in fields {
+            self.w(f);
+            self.w(": ");
+            self.expr(ft, d + 1);
+            self.w(", ");
+        }
+        self.w("}");
+    }
+    /// ctx 0 function (ret), 1 action, 2 policy/recall. Emits statements; the caller closes the body.
+    fn stmts(&mut self, ctx: u8, ret: Option<&Ty>, d: usize) {
+        let n = self.c.below(4);
+        for _ in 0..n {
+            match self.c.below(if d < 3 { 7 } else { 3 }) {
+                0 | 1 | 2 => {
+                    let t = self.ty(false);
+                    let name = self.fresh("l");
+                    self.w(&format!("let {name} = "));
+                    self.expr(&t, d + 1);
+                    self.w("\n");
+                    self.scopes.last_mut().unwrap().push((name, t));
+                }
+                3 => {
+                    self.w("check ");
+                    self.expr(&Ty::Bool, d + 1);
+                    self.w(" else ");
+                    match (ctx, ret) {
+                        (0, Some(r)) => {
+                            self.w("return ");
+                            self.expr(r, d + 1);
+                        }
+                        _ => self.w("test_fail(\"no\")"),
+                    }
+                    self.w("\n");
+                }
+                4 => {
+                    self.w("if (");
+                    self.expr(&Ty::Bool, d + 1);
+                    self.w(") {\n");
+                    self.scopes.push(Vec::new());
+                    self.stmts(ctx, ret, d + 1);
+                    self.scopes.pop();
+                    self.w("}\n");
+                }
+                5 if !self.enums.is_empty() => {
+                    let i = self.c.below(self.enums.len());
+                    let (name, vars) = self.enums[i].clone();
+                    self.w("match (");
+                    self.expr(&Ty::Enum(i), d + 1);
+                    self.w(") {\n");
+                    let partial = self.slip();
+                    for (k, v) in vars.iter().enumerate() {
+                        if partial && k == 0 {
+                            continue;
+                        }
+                        self.w(&format!("{name}::{v} => {{\n"));
+                        self.scopes.push(Vec::new());
+                        self.stmts(ctx, ret, d + 1);
+                        self.scopes.pop();
+                        self.w("}\n");
+                    }
+                    self.w("}\n");
+                }
+                6 if ctx == 1 && !self.facts.is_empty() => {
+                    self.w("map ");
+                    self.fact_lit(true, d + 1);
+                    let v = self.fresh("m");
+                    self.w(&format!(" as {v} {{\n"));
+                    self.scopes.push(Vec::new());
+                    self.stmts(ctx, ret, d + 1);
+                    self.scopes.pop();
+                    self.w("}\n");
+                }
+                _ => {
+                    self.w("debug_assert(");
+                    self.expr(&Ty::Bool, d + 1);
+                    self.w(")\n");
+                }
+            }
+        }
+    }
+    fn finish_block(&mut self, d: usize) {
+        self.w("finish {\n");
+        let n = self.c.below(4);
+        for _ in 0..n {
+            match self.c.below(6) {
+                0 if !self.facts.is_empty() => {
+                    self.w("create ");
+                    self.fact_lit(false, d + 8);
+                }
+                1 if !self.facts.is_empty() => {
+                    self.w("delete ");
+                    let k = self.c.below(self.facts.len());
+                    let (name, keys, _) = self.facts[k].clone();
+                    self.w(&name);
+                    self.w("[");
+                    for (i, (kn, kt)) in keys.iter().enumerate() {
+                        if i > 0 {
+                            self.w(", ");
+                        }
+                        self.w(kn);
+                        self.w(": ");
+                        self.expr(kt, d + 8);
+                    }
+                    self.w("]");
+                }
+                2 if !self.facts.is_empty() => {
+                    let k = self.c.below(self.facts.len());
+                    let (name, keys, vals) = self.facts[k].clone();
+                    self.w(&format!("update {name}["));
+                    for (i, (kn, kt)) in keys.iter().enumerate() {
+                        if i > 0 {
+                            self.w(", ");
+                        }
+                        self.w(kn);
+                        self.w(": ");
+                        self.expr(kt, d + 8);
+                    }
+                    self.w("]");
+                    if self.c.chance(1, 2) {
+                        self.w("=>{");
+                        for (i, (vn, _)) in vals.iter().enumerate() {
+                            if i > 0 {
+                                self.w(", ");
+                            }
+                            self.w(&format!("{vn}: ?"));
+                        }
+                        self.w("}");
+                    }
+                    self.w(" to {");
+                    for (i, (vn, vt)) in vals.iter().enumerate() {
+                        if i > 0 {
+                            self.w(", ");
+                        }
+                        self.w(vn);
+                        self.w(": ");
+                        self.expr(vt, d + 8);
+                    }
+                    self.w("}");
+                }
+                3 | 4 if !self.effects.is_empty() => {
+                    let k = self.c.below(self.effects.len());
+                    let (name, fields) = self.effects[k].clone();
+                    self.w("emit ");
+                    self.named_lit(&name, &fields, d + 8);
+                }
+                5 if !self.finish_funcs.is_empty() => {
+                    let k = self.c.below(self.finish_funcs.len());
+                    let (name, params) = self.finish_funcs[k].clone();
+                    self.w(&name);
+                    self.w("(");
+                    for (i, p) in params.iter().enumerate() {
+                        if i > 0 {
+                            self.w(", ");
+                        }
+                        self.expr(p, d + 8);
+                    }
+                    self.w(")");
+                }
+                _ => {}
+            }
+            self.w("\n");
+        }
+        self.w("}\n");
+    }
+    fn policy(&mut self) {
+        // definitions
+        for _ in 0..self.c.below(3) {
+            let name = self.fresh("En");
+            let vars: Vec<String> = (0..1 + self.c.below(3)).map(|k| format!("V{k}")).collect();
+            self.w(&format!("enum {name} {{ {} }}\n", vars.join(", ")));
+            self.enums.push((name, vars));
+        }
+        for _ in 0..1 + self.c.below(3) {
+            let name = self.fresh("St");
+            let n = 1 + self.c.below(3);
+            let f = self.field_list(n, false, "f");
+            self.w(&format!("struct {name} {{ "));
+            self.write_fields(&f);
+            self.w(" }\n");
+            self.structs.push((name, f));
+        }
+        for _ in 0..1 + self.c.below(2) {
+            let name = self.fresh("Fa");
+            let nk = 1 + self.c.below(2);
+            let keys = self.field_list(nk, true, "k");
+            let nv = self.c.below(3);
+            let vals = self.field_list(nv, false, "v");
+            if self.c.chance(1, 6) {
+                self.w("immutable ");
+            }
+            self.w(&format!("fact {name}["));
+            self.write_fields(&keys);
+            self.w("]=>{");
+            self.write_fields(&vals);
+            self.w("}\n");
+            self.facts.push((name, keys, vals));
+        }
+        for _ in 0..1 + self.c.below(2) {
+            let name = self.fresh("Ef");
+            let n = 1 + self.c.below(3);
+            let f = self.field_list(n, false, "e");
+            self.w(&format!("effect {name} {{ "));
+            self.write_fields(&f);
+            self.w(" }\n");
+            self.effects.push((name, f));
+        }
+        for _ in 0..self.c.below(3) {
+            let name = self.fresh("G");
+            let t = self.ty(true);
+            self.w(&format!("let {name} = "));
+            // globals must be literals
+            match t {
+                Ty::Int => self.w("5"),
+                Ty::Str => self.w("\"g\""),
+                _ => self.w("true"),
+            }
+            self.w("\n");
+            self.scopes[0].push((name, t));
+        }
+        for _ in 0..self.c.below(4) {
+            let name = self.fresh("fun");
+            let np = self.c.below(3);
+            let params = self.field_list(np, false, "p");
+            let ret = self.ty(false);
+            self.w(&format!("function {name}("));
+            self.write_fields(&params);
+            let rt = self.ty_text(&ret);
+            self.w(&format!(") {rt} {{\n"));
+            self.scopes.push(params.clone());
+            self.stmts(0, Some(&ret), 0);
+            if !self.slip() {
+                self.w("return ");
+                self.expr(&ret, 0);
+                self.w("\n");
+            }
+            self.scopes.pop();
+            self.w("}\n");
+            self.funcs.push((name, params.into_iter().map(|p| p.1).collect(), ret));
+        }
+        for _ in 0..self.c.below(2) {
+            let name = self.fresh("ff");
+            let np = self.c.below(3);
+            let params = self.field_list(np, true, "p");
+            self.w(&format!("finish function {name}("));
+            self.write_fields(&params);
+            self.w(") {\n");
+            self.scopes.push(params.clone());
+            // body of a finish function = statements of a finish block
+            let before = self.o.len();
+            self.finish_block(0);
+            let body = self.o.split_off(before);
+            let inner = body.trim_start_matches("finish {\n").trim_end().trim_end_matches('}');
+            let inner = inner.to_string();
+            self.w(&inner);
+            self.scopes.pop();
+            self.w("}\n");
+            self.finish_funcs.push((name, params.into_iter().map(|p| p.1).collect()));
+        }
+        for _ in 0..1 + self.c.below(2) {
+            let name = self.fresh("Cmd");
+            let nf = self.c.below(4);
+            let fields = self.field_list(nf, false, "c");
+            if self.c.chance(1, 6) {
+                self.w("ephemeral ");
+            }
+            self.w(&format!("command {name} {{\n"));
+            if self.c.chance(1, 4) {
+                self.w("attributes { prio: 3, tag: \"t\" }\n");
+            }
+            self.w("fields { ");
+            self.write_fields(&fields);
+            self.w(" }\nseal { return todo() }\nopen { return todo() }\npolicy {\n");
+            let recall = self.c.chance(1, 2);
+            let rname = self.fresh("rc");
+            self.scopes.push(fields.iter().map(|(n, t)| (format!("this.{n}"), t.clone())).collect());
+            self.stmts(2, None, 0);
+            if recall {
+                self.w("check ");
+                self.expr(&Ty::Bool, 1);
+                self.w(&format!(" else recall {rname}()\n"));
+            }
+            if self.c.chance(1, 3) {
+                self.w("if (");
+                self.expr(&Ty::Bool, 1);
+                self.w(") {\n");
+                self.finish_block(1);
+                self.w("} else {\n");
+                self.finish_block(1);
+                self.w("}\n");
+            } else if !self.slip() {
+                self.finish_block(0);
+            }
+            self.w("}\n");
+            if recall {
+                self.w(&format!("recall {rname}() {{\n"));
+                self.stmts(2, None, 1);
+                self.finish_block(1);
+                self.w("}\n");
+            }
+            self.scopes.pop();
+            self.w("}\n");
+            self.cmds.push((name, fields));
+        }
+        for _ in 0..self.c.below(3) {
+            let name = self.fresh("act");
+            let np = self.c.below(3);
+            let params = self.field_list(np, false, "a");
+            if self.c.chance(1, 6) {
+                self.w("ephemeral ");
+            }
+            self.w(&format!("action {name}("));
+            self.write_fields(&params);
+            self.w(") {\n");
+            self.scopes.push(params);
+            self.stmts(1, None, 0);
+            if !self.cmds.is_empty() && !self.slip() {
+                let k = self.c.below(self.cmds.len());
+                let (cn, cf) = self.cmds[k].clone();
+                self.w("publish ");
+                self.named_lit(&cn, &cf, 1);
+                self.w("\n");
+            }
+            self.scopes.pop();
+            self.w("}\n");
+        }
+    }
+}
+
+fn typed_text(data: &[u8]) -> String {
+    let mut t = T {
+        c: Cur { d: data, i: 0 },
+        o: String::new(),
+        structs: vec![],
+        enums: vec![],
+        facts: vec![],
+        effects: vec![],
+        cmds: vec![],
+        funcs: vec![],
+        finish_funcs: vec![],
+        scopes: vec![Vec::new()],
+        n: 0,
+    };
+    t.policy();
+    t.o
+}
+
+/// Splits text into identifier / number / string / punctuation / whitespace pieces.
+fn lex(s: &str) -> Vec<String> {
+    let mut out: Vec<String> = Vec::new();
+    let mut cur = String::new();
+    let mut class = 0u8; // 1 word, 2 space, 3 other
+    for ch in s.chars() {
+        let c = if ch.is_alphanumeric() || ch == '_' {
+            1
+        } else if ch.is_whitespace() {
+            2
+        } else {
+            3
+        };
+        if c != class || c == 3 {
+            if !cur.is_empty() {
+                out.push(std::mem::take(&mut cur));
+            }
+            class = c;
+        }
+        cur.push(ch);
+    }
+    if !cur.is_empty() {
+        out.push(cur);
+    }
+    out
+}
+
+#[derive(Clone, Debug)]
+enum Mutn {
+    DeleteTokens(u16, u8),
+    DuplicateTokens(u16, u8),
+    ReplaceToken(u16, u16),
+    InsertToken(u16, u16),
+    SwapTokens(u16, u16),
+    RenameIdent(u16, u16),
+    DeleteChars(u16, u8),
+    InsertChar(u16, char),
+    Truncate(u16),
+}
+
+fn vocab(k: u16) -> &'static str {
+    let n = KEYWORDS.len() + PUNCT.len() + IDENTS.len();
+    let i = idx(k, n);
+    if i < KEYWORDS.len() {
+        KEYWORDS[i]
+    } else if i < KEYWORDS.len() + PUNCT.len() {
+        PUNCT[i - KEYWORDS.len()]
+    } else {
+        IDENTS[i - KEYWORDS.len() - PUNCT.len()]
+    }
+}
+
+fn mutate(base: &str, muts: &[Mutn]) -> String {
+    let mut toks = lex(base);
+    for m in muts {
+        let n = toks.len();
+        match m {
+            Mutn::DeleteTokens(p, l) => {
+                if n > 0 {
+                    let a = idx(*p, n);
+                    let b = (a + 1 + *l as usize % 8).min(n);
+                    toks.drain(a..b);
+                }
+            }
+            Mutn::DuplicateTokens(p, l) => {
+                if n > 0 {
+                    let a = idx(*p, n);
+                    let b = (a + 1 + *l as usize % 12).min(n);
+                    let dup: Vec<String> = toks[a..b].to_vec();
+                    let at = b;
+                    for (k, t) in dup.into_iter().enumerate() {
+                        toks.insert(at + k, t);
+                    }
+                }
+            }
+            Mutn::ReplaceToken(p, k) => {
+                if n > 0 {
+                    let a = idx(*p, n);
+                    toks[a] = vocab(*k).to_string();
+                }
+            }
+            Mutn::InsertToken(p, k) => {
+                let a = idx(*p, n + 1);
+                toks.insert(a, format!(" {} ", vocab(*k)));
+            }
+            Mutn::SwapTokens(a, b) => {
+                if n > 0 {
+                    toks.swap(idx(*a, n), idx(*b, n));
+                }
+            }
+            Mutn::RenameIdent(p, q) => {
+                let words: Vec<usize> = toks
+                    .iter()
+                    .enumerate()
+                    .filter(|(_, t)| t.chars().next().is_some_and(|c| c.is_alphabetic()))
+                    .map(|(i, _)| i)
+                    .collect();
+                if !words.is_empty() {
+                    let a = words[idx(*p, words.len())];
+                    let b = words[idx(*q, words.len())];
+                    toks[a] = toks[b].clone();
+                }
+            }
+            Mutn::DeleteChars(p, l) => {
+                let s: Vec<char> = toks.concat().chars().collect();
+                if !s.is_empty() {
+                    let a = idx(*p, s.len());
+                    let b = (a + 1 + *l as usize % 6).min(s.len());
+                    let t: String = s[..a].iter().chain(s[b..].iter()).collect();
+                    toks = lex(&t);
+                }
+            }
+            Mutn::InsertChar(p, c) => {
+                let mut s: Vec<char> = toks.concat().chars().collect();
+                let a = idx(*p, s.len() + 1);
+                s.insert(a, *c);
+                toks = lex(&s.into_iter().collect::<String>());
+            }
+            Mutn::Truncate(p) => {
+                let s: Vec<char> = toks.concat().chars().collect();
+                let a = idx(*p, s.len() + 1);
+                toks = lex(&s[..a].iter().collect::<String>());
+            }
+        }
+    }
+    toks.concat()
+}
+
+fn mutn_s() -> impl Strategy<Value = Mutn> {
+    prop_oneof![
+        3 => (any::<u16>(), any::<u8>()).prop_map(|(a, b)| Mutn::DeleteTokens(a, b)),
+        2 => (any::<u16>(), any::<u8>()).prop_map(|(a, b)| Mutn::DuplicateTokens(a, b)),
+        4 => (any::<u16>(), any::<u16>()).prop_map(|(a, b)| Mutn::ReplaceToken(a, b)),
+        3 => (any::<u16>(), any::<u16>()).prop_map(|(a, b)| Mutn::InsertToken(a, b)),
+        2 => (any::<u16>(), any::<u16>()).prop_map(|(a, b)| Mutn::SwapTokens(a, b)),
+        4 => (any::<u16>(), any::<u16>()).prop_map(|(a, b)| Mutn::RenameIdent(a, b)),
+        2 => (any::<u16>(), any::<u8>()).prop_map(|(a, b)| Mutn::DeleteChars(a, b)),
+        2 => (any::<u16>(), prop_oneof![any::<char>(), prop::sample::select(vec!['{', '}', '"', '\\', '\0', '\n', '`', '-', '\u{e9}', '\u{2028}'])])
+            .prop_map(|(a, b)| Mutn::InsertChar(a, b)),
+        1 => any::<u16>().prop_map(Mutn::Truncate),
+    ]
+}
+
+/// Markdown wrappers: front matter and fence variants.
+fn wrap_md(front: u8, fence: u8, src: &str, second: &str) -> String {
+    let fm = match front % 12 {
+        0..=4 => "---\npolicy-version: 2\n---\n",
+        5 => "",
+        6 => "---\npolicy-version: 1\n---\n",
+        7 => "---\npolicy-version: \"2\"\nother: [1, 2]\n---\n",
+        8 => "---\npolicy_version: 2\n---\n",
+        9 => "---\n- a\n- b\n---\n",
+        10 => "---\npolicy-version: {a: 2}\n: :\n---\n",
+        _ => "---\npolicy-version: 2\n",
+    };
+    let body = match fence % 10 {
+        0..=3 => format!("\n```policy\n{src}\n```\n"),
+        4 => format!("\n# T\n\ntext\n\n```policy\n{src}\n```\n\nmore\n\n```policy\n{second}\n```\n"),
+        5 => format!("\n~~~policy\n{src}\n~~~\n"),
+        6 => format!("\n- item\n\n  ```policy\n  {src}\n  ```\n\n> ```policy\n> {second}\n> ```\n"),
+        7 => format!("\n```policy\n{src}\n"),
+        8 => format!("\n````policy extra words\n{src}\n````\n\n```Policy\n{second}\n```\n"),
+        _ => format!("\n\u{feff}```policy\r\n{}\r\n```\r\n| a | b |\n|---|---|\n| `x` | ```policy |\n", src.replace('\n', "\r\n")),
+    };
+    format!("{fm}{body}")
+}
+
+fn case() -> impl Strategy<Value = Case> {
+    let c = corpus();
+    let ns = c.sources.len();
+    let nd = c.docs.len();
+    let tok = prop_oneof![
+        5 => any::<u16>().prop_map(|k| vocab(k).to_string()),
+        2 => prop::sample::select(IDENTS.to_vec()).prop_map(str::to_string),
+        1 => (0u32..300).prop_map(|n| n.to_string()),
+        1 => "\"[a-z\\\\x\"]{0,4}\"",
+        1 => "[ -~]{1,3}",
+    ];
+    let soup = prop::collection::vec((tok, prop::sample::select(vec![" ", " ", "\n", "", "\t"])), 0..60)
+        .prop_map(|v| v.into_iter().map(|(t, s)| format!("{t}{s}")).collect::<String>());
+    prop_oneof![
+        // arbitrary text
+        2 => "\\PC{0,120}".prop_map(|text| Case { kind: "arbitrary".into(), text }),
+        1 => ".{0,200}".prop_map(|text| Case { kind: "arbitrary".into(), text }),
+        1 => prop::collection::vec(any::<char>(), 0..80).prop_map(|v| Case { kind: "arbitrary".into(), text: v.into_iter().collect() }),
+        // token soup
+        4 => soup.clone().prop_map(|text| Case { kind: "soup".into(), text }),
+        // grammar sampler
+        8 => prop::collection::vec(any::<u8>(), 0..400).prop_map(|d| Case { kind: "grammar".into(), text: grammar_text(&d, false) }),
+        3 => prop::collection::vec(any::<u8>(), 0..120).prop_map(|d| Case { kind: "grammar_expr".into(), text: grammar_text(&d, true) }),
+        // scope/type-aware sampler (mostly compiles), plain and mutated
+        8 => prop::collection::vec(any::<u8>(), 0..600).prop_map(|d| Case { kind: "typed".into(), text: typed_text(&d) }),
+        4 => (prop::collection::vec(any::<u8>(), 0..500), prop::collection::vec(mutn_s(), 1..3))
+            .prop_map(|(d, m)| Case { kind: "typed_mutated".into(), text: mutate(&typed_text(&d), &m) }),
+        // grammar sample, then mutated
+        3 => (prop::collection::vec(any::<u8>(), 0..300), prop::collection::vec(mutn_s(), 1..3))
+            .prop_map(|(d, m)| Case { kind: "grammar_mutated".into(), text: mutate(&grammar_text(&d, false), &m) }),
+        // corpus, mutated
+        8 => (any::<u16>(), prop::collection::vec(mutn_s(), 0..4))
+            .prop_map(move |(i, m)| Case { kind: if m.is_empty() { "corpus".into() } else { "corpus_mutated".into() }, text: mutate(&corpus().sources[idx(i, ns)], &m) }),
+        // two corpus entries glued together (name clashes, duplicate definitions)
+        2 => (any::<u16>(), any::<u16>())
+            .prop_map(move |(i, j)| Case { kind: "corpus_pair".into(), text: format!("{}\n{}", corpus().sources[idx(i, ns)], corpus().sources[idx(j, ns)]) }),
+        // markdown documents
+        3 => (any::<u16>(), prop::collection::vec(mutn_s(), 0..4))
+            .prop_map(move |(i, m)| Case { kind: "doc_mutated".into(), text: mutate(&corpus().docs[idx(i, nd)], &m) }),
+        4 => (any::<u8>(), any::<u8>(), any::<u16>(), any::<u16>(), prop::collection::vec(mutn_s(), 0..2))
+            .prop_map(move |(f, b, i, j, m)| Case {
+                kind: "doc_wrapped".into(),
+                text: wrap_md(f, b, &mutate(&corpus().sources[idx(i, ns)], &m), &corpus().sources[idx(j, ns)]),
+            }),
+        2 => (any::<u8>(), any::<u8>(), prop::collection::vec(any::<u8>(), 0..200))
+            .prop_map(|(f, b, d)| Case { kind: "doc_wrapped_grammar".into(), text: wrap_md(f, b, &grammar_text(&d, false), "let z = 1") }),
+        1 => (any::<u8>(), any::<u8>(), soup).prop_map(|(f, b, s)| Case { kind: "doc_wrapped_soup".into(), text: wrap_md(f, b, &s, "") }),
+    ]
+}
+
+// ---- oracle ---------------------------------------------------------------------------------------------------------
+
+fn short_file(loc: &str) -> String {
+    let l = loc.rsplit_once(':').map(|x| x.0).unwrap_or(loc);
+    match l.find("crates/") {
+        Some(i) => l[i..].to_string(),
+        None => match l.find("/registry/src/") {
+            Some(i) => l[i + 14..].split_once('/').map(|x| x.1.to_string()).unwrap_or_else(|| l.to_string()),
+            None => l.to_string(),
+        },
+    }
+}
+
+/// Keeps the input-independent head of a panic message (up to the first number or quoted excerpt; backtick spans that
+/// look like code such as `Option::unwrap()` are kept), so that one defect has one signature.
+fn normalize(msg: &str) -> String {
+    let chars: Vec<char> = msg.chars().collect();
+    let mut out = String::new();
+    let mut i = 0;
+    while i < chars.len() && out.len() < 100 {
+        let c = chars[i];
+        if c.is_ascii_digit() || c == '\'' || c == '"' || !c.is_ascii() || c.is_ascii_control() {
+            break;
+        }
+        if c == '`' {
+            match chars[i + 1..].iter().take(40).position(|x| *x == '`') {
+                Some(j) if chars[i + 1..i + 1 + j].iter().all(|x| x.is_ascii_graphic()) => {
+                    out.extend(&chars[i..i + j + 2]);
+                    i += j + 2;
+                    continue;
+                }
+                _ => break,
+            }
+        }
+        out.push(c);
+        i += 1;
+    }
+    out.trim_end().to_string()
+}
+
+fn guarded<R>(what: &str, input: &str, f: impl FnOnce() -> R) -> Result<R, Failure> {
+    vcommon::catch(f).map_err(|(msg, loc)| {
+        let m = normalize(&msg);
+        Failure::new(
+            format!("panic in {what}: {m} @ {}", short_file(&loc)),
+            format!("{what} panicked with `{msg}` at {loc}; input: {input:?}"),
+        )
+    })
+}
+
+/// Rendering failures are reported only after everything else in the case has been checked.
+struct Deferred(Vec<Failure>);
+
+impl Deferred {
+    fn render(&mut self, what: &str, input: &str, f: impl FnOnce() -> String) {
+        if let Err(fl) = guarded(what, input, f) {
+            self.0.push(fl);
+        }
+    }
+}
+
+fn compile_all(p: &aranya_policy_ast::Policy, via: &str, c: &Case, input: &str, info: &mut CaseInfo, df: &mut Deferred) -> CheckResult {
+    let mut any_ok = false;
+    for debug in [true, false] {
+        for stub in [false, true] {
+            let r = guarded("Compiler::compile", input, || Compiler::new(p).debug(debug).stub_ffi(stub).compile())?;
+            match r {
+                Ok(_) => any_ok = true,
+                // the structured error must be printable as well
+                Err(e) => df.render("CompileError::to_string", input, || e.to_string()),
+            }
+        }
+    }
+    info.nontrivial();
+    info.label(format!("{via}_parsed"));
+    info.label(format!("parsed_{}", c.kind));
+    info.label(if any_ok { "compiled_ok" } else { "compile_error" });
+    if any_ok {
+        info.label(format!("compiled_ok_{}", c.kind));
+    }
+    Ok(())
+}
+
+#[allow(deprecated)]
+fn versions() -> [Version; 2] {
+    [Version::V2, Version::V1]
+}
+
+fn check(c: &Case, info: &mut CaseInfo) -> CheckResult {
+    info.label(format!("kind_{}", c.kind));
+    let t = &c.text;
+    let mut df = Deferred(Vec::new());
+    match guarded("parse_policy_document", t, || parse_policy_document(t)) {
+        Ok(Ok(p)) => compile_all(&p, "document", c, t, info, &mut df)?,
+        Ok(Err(e)) => df.render("ParseError::to_string", t, || e.to_string()),
+        // the markdown front end failing does not stop the other front ends from being examined
+        Err(fl) => df.0.push(fl),
+    }
+    for v in versions() {
+        match guarded("parse_policy_str", t, || parse_policy_str(t, v))? {
+            Ok(p) => compile_all(&p, "source", c, t, info, &mut df)?,
+            Err(e) => df.render("ParseError::to_string", t, || e.to_string()),
+        }
+    }
+    match guarded("parse_expression", t, || parse_expression(t))? {
+        Ok(_) => {
+            info.label("expression_parsed");
+            info.nontrivial();
+        }
+        Err(e) => df.render("ParseError::to_string", t, || e.to_string()),
+    }
+    // bare source is also tried inside a standard document
+    if !c.kind.starts_with("doc") && t.len() < 4000 {
+        let doc = policies::to_doc(t);
+        match guarded("parse_policy_document", &doc, || parse_policy_document(&doc)) {
+            Ok(Ok(p)) => {
+                // compile only once more (same AST up to span offsets)
+                let r = guarded("Compiler::compile", &doc, || Compiler::new(&p).compile())?;
+                if let Err(e) = r {
+                    df.render("CompileError::to_string", &doc, || e.to_string());
+                }
+                info.label("wrapped_document_parsed");
+            }
+            Ok(Err(e)) => df.render("ParseError::to_string", &doc, || e.to_string()),
+            Err(fl) => df.0.push(fl),
+        }
+    }
+    match df.0.into_iter().next() {
+        Some(fl) => Err(fl),
+        None => Ok(()),
+    }
+}
+
+pub fn run(ctx: &Ctx) -> ! {
+    let mut rep = Report::new(ctx, "exploration");
+    let c = corpus();
+    rep.assume(format!(
+        "corpus: {} policy sources and {} markdown documents ({} read from $VERIF_REPO test data, the rest embedded); cases store the final text",
+        c.sources.len(),
+        c.docs.len(),
+        c.from_repo
+    ));
+    rep.assume("nesting depth of generated text is bounded (grammar sampler depth 7, inputs <= ~20 kB); exhaustion of the native stack by deeper nesting is not examined");
+    rep.assume("printing the returned ParseError / CompileError (Display) is included, since a structured error is only useful if it can be rendered");
+    if std::env::var_os("VH_ROBUST_DUMP").is_some() {
+        let mut rng = vcommon::rng_for(ctx.seed, "dump");
+        use proptest::prelude::RngCore;
+        let mut ok = 0;
+        for _ in 0..300 {
+            let mut d = vec![0u8; 500];
+            rng.fill_bytes(&mut d);
+            let t = if std::env::var_os("VH_ROBUST_TYPED").is_some() { typed_text(&d) } else { grammar_text(&d, false) };
+            match parse_policy_str(&t, Version::V2) {
+                Ok(p) => {
+                    ok += 1;
+                    match Compiler::new(&p).compile() {
+                        Ok(_) => println!("COMPILE ok"),
+                        Err(e) => {
+                            println!("COMPILE {}", e.to_string().lines().next().unwrap_or(""));
+                            if std::env::var_os("VH_ROBUST_FULL").is_some() {
+                                println!("FULL {}", e.to_string().lines().take(12).collect::<Vec<_>>().join("\nFULL "));
+                            }
+                        }
+                    }
+                }
+                Err(e) => {
+                    let sp = e.span.map(|s| (s.start(), s.end()));
+                    let ex = sp.map(|(a, _)| t.get(a.saturating_sub(30)..(a + 20).min(t.len())).unwrap_or("").replace('\n', " "));
+                    println!("ERR {:?} {} | near: {:?}", e.kind, e.message.lines().next().unwrap_or(""), ex);
+                }
+            }
+        }
+        println!("grammar sampler parse rate {ok}/300");
+    }
+    rep.explore(
+        "front_ends",
+        "texts: arbitrary unicode; token soup over all literal tokens of policy.pest; a grammar sampler for policy.pest \
+         (all top-level items, statements and expression forms, names from a small pool, random types/scopes, depth <= 7); \
+         sampler output with token/char mutations; repository + harness corpus of policy sources with 0..3 mutations \
+         (delete/duplicate/replace/insert/swap tokens, rename identifier, delete/insert characters, truncate); pairs of \
+         corpus entries; markdown documents (corpus documents mutated; sources wrapped with 12 front-matter and 10 fence \
+         variants). Every text goes through parse_policy_document, parse_policy_str (V1, V2), parse_expression, and, if \
+         not already a document, through a standard document wrapper; every AST obtained is compiled with debug x stub_ffi \
+         (4 combinations); returned errors are rendered. Non-trivial = some parser accepted the text (the compiler ran)",
+        case,
+        ctx.pick(100_000, 3_000_000),
+        check,
+    );
+    rep.finish()
+}
